@@ -5,3 +5,4 @@ pub use crate::config::file_lines::verif_hooks as file_lines;
 pub use crate::emitter::verif_hooks as emitter;
 pub use crate::formatting::verif_hooks as formatting;
 pub use crate::rustfmt_diff::verif_hooks as rustfmt_diff;
+pub use crate::sort::verif_hooks as sort;
